@@ -152,15 +152,18 @@ def exec_search_table(ctx):
                 if not parse_ok and (search != "ok" or count):
                     continue
                 effects = []
+                trace = []
 
-                def call(node, recv, args, it, env, parse_ok=parse_ok, search=search, count=count, effects=effects):
+                def call(node, recv, args, it, env, parse_ok=parse_ok, search=search, count=count, effects=effects, trace=trace):
                     callee = str(node.get("callee", ""))
                     m = node.get("m")
                     if m == "parse" and "Parser" in callee:
                         return (interp.V("Result::Ok", [interp.Opaque("query")]) if parse_ok else interp.V("Result::Err", [interp.Opaque("parse error")]),)
                     if callee.endswith("Searcher::new"):
+                        trace.append("new")
                         return ({"error_count": count},)
                     if m == "list_search_results":
+                        trace.append("search")
                         if search == "ok":
                             return (interp.V("Result::Ok", [()]),)
                         return (interp.V("Result::Err", [{"__kind": "ErrorKind::BrokenPipe" if search == "pipe" else "ErrorKind::Other"}]),)
@@ -179,7 +182,7 @@ def exec_search_table(ctx):
                     v = interp.eval_in(h, h, {"config": {"debug": False}, "no_color": False}, call=call)
                 except interp.Undecided as e:
                     return None, str(e)
-                out[(parse_ok, search, count)] = (v, list(effects))
+                out[(parse_ok, search, count)] = (v, list(effects), list(trace))
     return out, None
 
 
@@ -244,8 +247,22 @@ def r3(ctx):
 
 
 def r4(ctx):
-    """a parse-time rejection prints no result row: the searcher is created and run only in the Ok arm of the parse"""
+    """a parse-time rejection prints no result row: the searcher is created and run only after a successful parse.  Read off the
+    evaluation of exec_search (C10-R3's table): after a failed parse neither Searcher::new nor list_search_results is reached,
+    after a successful one both are, once each; structurally (both sites under the Ok arm of the parse) if it cannot be evaluated"""
     h = ctx.anchor_hir(EXEC_SEARCH)
+    tbl, why = exec_search_table(ctx)
+    if tbl is not None:
+        bad = []
+        for k_, v_ in tbl.items():
+            want = ["new", "search"] if k_[0] else []
+            ctx.obligation(v_[2] == want)
+            if v_[2] != want:
+                bad.append("parse %s, search %s, %d failures: reaches %s" % ("succeeds" if k_[0] else "fails", k_[1], k_[2], v_[2] or "nothing"))
+        ctx.covered("reach of Searcher::new / list_search_results in exec_search on its 22 scenarios", len(tbl), exhaustive=True)
+        if bad:
+            ctx.violation("order/search-before-parse", ctx.where(EXEC_SEARCH), "the search must run exactly when the query parsed successfully: %s" % "; ".join(bad[:3]))
+        return
     n = 0
     for c in walk_exprs(h):
         if (c["k"] == "Call" and str(c.get("callee", "")).endswith("Searcher::new")) or (c["k"] == "MCall" and c["m"] == "list_search_results"):
